@@ -1,2 +1,2 @@
-prop('C08', [dict(name='workspace', quick=400, thorough=5000, timeout=900)],
+prop('C08', [dict(name='workspace', quick=400, thorough=5000, timeout=900, extra=['minfill=1'])],
      level_text='placeholder', level_note='placeholder', technique='Lean 4 proof + differential check', rule='placeholder', trusted_base=[], assumptions=[])
